@@ -344,7 +344,11 @@ def build_cases(tier):
                     c = dict(kind="B", family="long_durations", scenario=scn, deviations=[[which, hours], ["initial", ini]], choices=[], cost=0)
                     c["key"] = chash(scn)
                     L.append(c)
-    B = B + C + L
+    Wc, stW = merge_cases(family("partW", make_genW(tier), K))
+    for c in Wc:
+        c["kind"] = "W"
+    B = B + C + L + Wc
+    stats["window_cases"] = len(Wc)
     stats["long_duration_cases"] = len(L)
     stats["transitions"] += stC["transitions"]
     stats["partC_cases"] = len(C)
@@ -360,6 +364,8 @@ def run_case(case):
         return run_partA(case)
     if case.get("kind") == "C":
         return run_partC(case)
+    if case.get("kind") == "W":
+        return run_partW(case)
     return run_partB(case)
 
 
@@ -382,6 +388,12 @@ def run_partB(case):
             if best is not None:
                 res["status"] = "ok"
                 V.append(viol("c06.exactness", "EAO reports infeasible, but an admissible pattern is feasible (value %.6f)" % best, tags, ["infeasible"]))
+        elif run.status == "exception":
+            best = _best_pattern(scn, meta)[0]
+            if best is not None:
+                res["status"] = "ok"
+                V.append(viol("c06.raises", "EAO raises %s at %s (stage %s), an admissible pattern is feasible (value %.6f)" % (run.error, run.site, run.stage, best),
+                              tags + ["site:%s" % run.site], ["raises", "site:%s" % run.site]))
         return res
     g = Grid.from_json(scn["grid"])
     a = [x for x in scn["assets"] if x["name"] == "pl"][0]
@@ -490,7 +502,114 @@ def run_partB(case):
     return res
 
 
-def _best_pattern(scn, meta):
+def make_genW(tier):
+    """a unit that exists in part of the horizon only (commissioned late, decommissioned early, single step, outside)"""
+    def gen(ch):
+        gname = ch.pick("grid", ["5xh", "4x6h"])
+        gj = dict(S.GRIDS[gname])
+        g = Grid.from_json(gj)
+        T = g.T
+        step_h = g.dt[0] * S.MTU_H[g.mtu]
+        w = ch.free("pword", price_words(min(T, 5), tier)[:6])
+        prices = dict(p=[w[i % len(w)] for i in range(T)], fuelc=[4.0] * T, gasp=[2.0] * T, heatp=[6.0] * T)
+        kind = ch.free("kind", ["plant", "chp", "chpml0", "chpfuel"])
+        assets = [dict(type="SimpleContract", name="mkt", nodes=["n1"], price="p", min_cap=-15.0, max_cap=15.0)]
+        a = dict(name="pl", min_cap=1.0, max_cap=10.0)
+        if kind == "plant":
+            a.update(type="Plant", nodes=["n1"], price="fuelc")
+        else:
+            assets.append(dict(type="SimpleContract", name="heat", nodes=["nh"], price="heatp", min_cap=-4.0, max_cap=0.0))
+            if kind == "chpfuel":
+                a.update(type="CHPAsset", nodes=["n1", "nh", "nf"], fuel_efficiency=0.5, consumption_if_on=0.4, start_fuel=1.5)
+                assets.append(dict(type="SimpleContract", name="gas", nodes=["nf"], price="gasp", min_cap=0.0, max_cap=100.0))
+            else:
+                a.update(type="CHPAsset", nodes=["n1", "nh"], price="fuelc")
+            if kind == "chpml0":   # the variant with minimum-load costs, with costs 0: behaves like the plain CHP
+                a.update(type="CHPAsset_with_min_load_costs", min_load_threshhold=4.0, min_load_costs=0.0)
+        win = ch.free("pl.window", S.window_menu(T)[1:])
+        s_, e_ = S.resolve_window(g, win)
+        if s_:
+            a["start"] = s_
+        if e_:
+            a["end"] = e_
+        ini = ch.pick("pl.initial", ["off_long", "on1", "on_long", "off1"])
+        a.update(initial_kwargs(ini, step_h))
+        if ini.startswith("on"):
+            a["last_dispatch"] = 5.0
+        R = ch.pick("pl.min_runtime", [0, 2])
+        if R:
+            a["min_runtime"] = R * step_h
+        D = ch.pick("pl.min_downtime", [0, 2])
+        if D:
+            a["min_downtime"] = D * step_h
+        sc = ch.pick("pl.start_costs", [0.0, 7.0])
+        if sc:
+            a["start_costs"] = sc
+        rp = ch.pick("pl.ramp", [None, 3.0])
+        if rp is not None:
+            a["ramp"] = rp
+        rc = ch.pick("pl.running_costs", [0.0, 0.5])
+        if rc:
+            a["running_costs"] = rc
+        assets.append(a)
+        scn = S.finish(gj, assets, prices)
+        scn["meta"] = dict(initial=ini, R=R, D=D, step_h=step_h, kind=kind, family="window")
+        return scn
+    return gen
+
+
+def run_partW(case):
+    """value against the best admissible pattern over the unit's life time; no output outside it; no exception"""
+    import copy as _copy
+    scn = case["scenario"]
+    meta = scn["meta"]
+    tags = S.feature_tags(scn) + ["partW", "initial:" + meta["initial"], "kind:" + meta["kind"]]
+    res = dict(status="ok", violations=[], counters={})
+    V = res["violations"]
+    ctag = ["window", "kind:" + meta["kind"]]
+    ref_scn = _copy.deepcopy(scn)
+    for x in ref_scn["assets"]:
+        if x["type"] == "CHPAsset_with_min_load_costs":
+            x["type"] = "CHPAsset"
+            x.pop("min_load_threshhold")
+            x.pop("min_load_costs")
+    a = [x for x in ref_scn["assets"] if x["name"] == "pl"][0]
+    g = Grid.from_json(scn["grid"])
+    W = g.window(a.get("start"), a.get("end"), scn.get("date_tz"))
+    run = ImplRun(scn, solver="SCIPY")
+    res["fingerprint"] = "%s|%s" % (run.status, None if run.value is None else round(run.value, 5))
+    res["outcome"] = "W:%s/%d" % (run.status, len(W))
+    best, n_acc, n_feas = _best_pattern(ref_scn, meta, n=len(W))
+    res["counters"]["pattern_lps"] = n_acc
+    if run.status == "exception":
+        V.append(viol("c06.raises", "unit with life time steps %s: EAO raises %s at %s (stage %s)%s" % (W, run.error, run.site, run.stage,
+                      "" if best is None else "; an admissible pattern is feasible (value %.6f)" % best), tags + ["site:%s" % run.site], ctag + ["site:%s" % run.site]))
+        return res
+    if run.status != "optimal":
+        if best is not None:
+            V.append(viol("c06.exactness", "EAO reports %s, but an admissible pattern is feasible (value %.6f)" % (run.status, best), tags, ctag + ["infeasible"]))
+        else:
+            res.update(status="skip", validated=False)
+        return res
+    if best is None:
+        V.append(viol("c06.exactness", "EAO finds value %.6f but no admissible pattern has a feasible pattern LP" % run.value, tags, ctag))
+    elif not close(run.value, best, rel=1e-6, abs_=1e-6):
+        V.append(viol("c06.exactness", "unit with life time steps %s: EAO's optimum %.6f differs from the best admissible pattern %.6f" % (W, run.value, best),
+                      tags, ctag + ["higher" if run.value > best else "lower", "initial:" + meta["initial"][:2]]))
+    tab, nodes = run.table()
+    tot = 0.0
+    for (nm, nd), arr in tab.items():
+        if nm == "pl":
+            tot += float(np.abs(arr).sum())
+            out = [t for t in range(g.T) if t not in W and abs(arr[t]) > 1e-7]
+            if out:
+                V.append(viol("c06.off_output", "flow %.6f at node %s in step %d outside the unit's life time %s" % (arr[out[0]], nd, out[0], W), tags, ctag))
+                break
+    res["nontrivial"] = bool(tot > 1e-6)
+    return res
+
+
+def _best_pattern(scn, meta, n=None):
     a = [x for x in scn["assets"] if x["name"] == "pl"][0]
     g = Grid.from_json(scn["grid"])
     step = g.dt[0]
@@ -499,7 +618,7 @@ def _best_pattern(scn, meta):
     D = uc.steps(a.get("min_downtime", 0), step)
     best = None
     n_acc = n_feas = 0
-    for w in uc.language(g.T, R, D, init):
+    for w in uc.language(g.T if n is None else n, R, D, init):
         n_acc += 1
         try:
             ref = R2.RefModel(scn, options=dict(words={"pl": w}))
